@@ -425,6 +425,25 @@ class Stats:
         self.runner_samples += o.runner_samples
 
 
+def note(pid, text):
+    """a remark from a shard process for the evidence file (collected by check.py): things worth telling that are not violations"""
+    WORK.mkdir(exist_ok=True)
+    with open(WORK / f"notes_{pid}.txt", "a") as f:
+        f.write(text.replace("\n", " ") + "\n")
+
+
+def collect_notes(pid):
+    p = WORK / f"notes_{pid}.txt"
+    if not p.exists():
+        return []
+    lines = p.read_text().splitlines()
+    p.unlink()
+    out = {}
+    for l in lines:
+        out[l] = out.get(l, 0) + 1
+    return [f"{l} (x{n})" for l, n in out.items()]
+
+
 def load_known():
     p = VERIF / "known_findings.json"
     if not p.exists():
